@@ -14,7 +14,7 @@ pub fn run(cfg: &RunCfg, agg: &Mutex<Agg>) {
         case(&mut Rng::new(cs), out);
     });
     // few shards of 4 / 8 MiB (block counts on a 16-bit boundary), dense data
-    crate::util::run_indexed(agg, cfg, "linearity-long-shards", if cfg.thorough { 32 } else { 8 }, |i, out| {
+    crate::util::run_indexed(agg, cfg, "linearity-long-shards", if cfg.thorough { 48 } else { 16 }, |i, out| {
         LONG.with(|l| l.set(Some(i as usize)));
         case(&mut Rng::new(crate::util::mix(cfg.seed, i)), out);
         LONG.with(|l| l.set(None));
@@ -67,7 +67,11 @@ fn case(rng: &mut Rng, out: &mut CaseOut) {
     let a = if long.is_some() { (0..k).map(|_| rng.bytes(size)).collect() } else { gen::originals(rng, k, size) };
     // b: another data set, or (a quarter of the cases) the delta of a small
     // update - a few bytes in one or two shards, everything else zero
-    let delta = rng.chance(1, 4);
+    let delta = match long {
+        // long shards: dense a; b alternates between a small delta and dense data
+        Some(i) => (i / 8) % 2 == 0,
+        None => rng.chance(1, 4),
+    };
     let b = if delta {
         let mut d = vec![vec![0u8; size]; k];
         for _ in 0..rng.range(1, 2) {
